@@ -1266,6 +1266,9 @@ type HeapCase struct {
 	// rule (the same statements) runs again over a fresh $ while the variables
 	// keep what the earlier passes left in them
 	Passes int `json:"passes,omitempty"`
+	// the further passes come from naming the root selector `$` Passes times over
+	// a document that is in the input once: every selector is given a fresh document
+	PassSelectors bool `json:"pass_selectors,omitempty"`
 	// only set in the pinned witnesses of known findings K1 / K3
 	AllowAliasedPad  bool `json:"allow_aliased_pad,omitempty"`
 	AllowMethodKeys  bool `json:"allow_method_keys,omitempty"`
@@ -1474,7 +1477,11 @@ func runHeapCase(c *HeapCase, keep bool) Outcome {
 		if pass > 0 {
 			fresh, _ := c.newHeap()
 			h.cell("$").V = fresh.cell("$").V
-			input += "\n" + c.Doc
+			if c.PassSelectors {
+				o.Probes["further_pass_by_repeated_root_selector"]++
+			} else {
+				input += "\n" + c.Doc
+			}
 			o.Probes["further_pass_over_fresh_document"]++
 		}
 		want = append(want, exp{"S", h.dump(c.Vars), -1})
@@ -1500,7 +1507,13 @@ func runHeapCase(c *HeapCase, keep bool) Outcome {
 				kind, msg = "panic", fmt.Sprint(r)
 			}
 		}()
-		_, err := lang.EvalProgram(prog, []lang.InputFile{{Name: "doc.json", Reader: strings.NewReader(input)}}, nil, &out, false)
+		var selectors []string
+		if c.PassSelectors {
+			for pass := 0; pass < passes; pass++ {
+				selectors = append(selectors, "$")
+			}
+		}
+		_, err := lang.EvalProgram(prog, []lang.InputFile{{Name: "doc.json", Reader: strings.NewReader(input)}}, selectors, &out, false)
 		kind, msg = classifyErr(err)
 	}()
 	log.add('H', 0, "RUN ops=%d passes=%d kind=%s msg=%q", len(c.Ops), passes, kind, msg)
@@ -1823,6 +1836,7 @@ func genHeapCase(t *Tape, maxOps int) *HeapCase {
 		}
 		if ok {
 			c.Passes = want
+			c.PassSelectors = t.Chance(1, 3)
 		}
 	}
 	return c
